@@ -578,6 +578,15 @@ class TaskScenario(ScenarioData):
                     # 2. Successors (tasks depending on this - our END <= their START)
                     latest_end = self.project["end"]  # Default to project end
 
+                    # The deadline of an enclosing container bounds every task inside it,
+                    # also a task whose successors lie outside the container
+                    ancestor = self.property.parent
+                    while ancestor is not None:
+                        ancestor_end = ancestor.get("end", self.scenarioIdx)
+                        if ancestor_end and ancestor_end < latest_end:
+                            latest_end = ancestor_end
+                        ancestor = ancestor.parent
+
                     # Check onstart dependencies - our END must be before predecessor's START
                     # with gapduration subtracted if specified
                     for dep in self.getAllDependencies():
